@@ -2,6 +2,7 @@ import RedisGoModel.Exec.StringKeys
 import RedisGoModel.Exec.Hash
 import RedisGoModel.Exec.List
 import RedisGoModel.Exec.Set
+import RedisGoModel.Exec.Stream
 import RedisGoModel.Exec.ZSet
 /-! Command table and dispatch (`server.Manager.ExecCommand`: lower-cased command name, table lookup). -/
 namespace Exec
@@ -12,6 +13,7 @@ def cmdTable : List (String × Cmd) := stringKeyTable
   ++ hashTable
   ++ listTable
   ++ zsetTable
+  ++ streamTable
 
 def lookupCmd (name : Bytes) : Option Cmd :=
   (cmdTable.find? fun p => ofStr p.1 == name).map (·.2)
